@@ -99,6 +99,7 @@ class Acc:
         if finding: d["finding"] = finding
         self.fails.append(d)
     def results(self):
+        self.fails.sort(key=lambda f: 0 if f["status"] == "prop_fail" else 1)
         out = self.fails[:3]
         out.append({"status": "ok", "evals": self.evals, "keys": sorted(self.keys)[:3000], "kind": self.kind,
                     "stats": dict(self.stats), "nontrivial": False})
@@ -164,9 +165,8 @@ def check_sessions(st, acc, rng, data, nsess, bs=65536, hlen=7, dict_=None, expe
         v = r["verdict"]
         if v == "toolong":
             continue
-        if v == "corr":
-            acc.fail("corr_fail", "model/code disagree: " + str(r["what"]), detail(data, p, r, dict_))
-            return None
+        if r.get("corr") and not any(f["status"] == "corr_fail" for f in acc.fails):
+            acc.fail("corr_fail", "model/code disagree: " + str(r["corr"]), detail(data, p, r, dict_))
         if v == "blockdec":
             acc.stats["blockdec_" + r["what"]] += 1
             if r["what"] == "F5":
@@ -314,8 +314,8 @@ def k_multi(st, acc, rng, case):
         r = one_session(st, acc, rng, data, p, 65536, 7, None, multi=True, total_out=sum(map(len, outs)))
         v = r["verdict"]
         if v == "toolong": continue
-        if v == "corr":
-            acc.fail("corr_fail", "model/code disagree: " + str(r["what"]), detail(data, p, r)); return
+        if r.get("corr") and not any(f["status"] == "corr_fail" for f in acc.fails):
+            acc.fail("corr_fail", "model/code disagree: " + str(r["corr"]), detail(data, p, r))
         if v in ("prop", "noprogress"):
             acc.fail("prop_fail", str(r["what"]), detail(data, p, r)); return
         got = [(a, b) for a, b in r["frames"]]
@@ -341,8 +341,8 @@ def k_big(st, acc, rng, case):
         r = one_session(st, acc, rng, fr, p, bs, meta["hlen"], dict_, False, len(content))
         v = r["verdict"]
         if v == "toolong": continue
-        if v == "corr":
-            acc.fail("corr_fail", "model/code disagree: " + str(r["what"]), detail(fr, p, r, dict_)); return
+        if r.get("corr") and not any(f["status"] == "corr_fail" for f in acc.fails):
+            acc.fail("corr_fail", "model/code disagree: " + str(r["corr"]), detail(fr, p, r, dict_))
         if v in ("prop", "noprogress"):
             acc.fail("prop_fail", str(r["what"]), detail(fr, p, r, dict_)); return
         if v != "complete" or r["out"] != content or r["pos"] != len(fr):
@@ -406,18 +406,13 @@ def k_flgbd(st, acc, rng, case):
             pd = orc.ask("pdesc", hx(h[4:]))
             spec_ok = pd.startswith("ok")
             acc.evals += 3
-            # 1. headerSize
-            hs_c = cd.header_size(h); hs_m = int(orc.ask("hsize", "0", hx(h)))
-            if hs_c != hs_m:
-                acc.fail("corr_fail", "LZ4F_headerSize: code %d model %d" % (hs_c, hs_m), {"header": h.hex()}); break
+            # the real code against the specification first, then against the model
+            hs_c = cd.header_size(h)
+            cd.reset(); md.reset()
+            ci = cd.frame_info(h + tail); mi = md.frame_info(h + tail)     # same call sequence on both sides
+            acc_c = ci[1] >= 0
             if spec_ok and hs_c != len(h):
                 acc.fail("prop_fail", "LZ4F_headerSize = %d but the descriptor accepted by the specification is %d bytes" % (hs_c, len(h)), {"header": h.hex()}); break
-            # 2. getFrameInfo on a fresh/reset context
-            cd.reset(); md.reset()
-            ci = cd.frame_info(h + tail); mi = md.frame_info(h + tail)
-            if ci != mi[:3]:
-                acc.fail("corr_fail", "LZ4F_getFrameInfo: code %s model %s" % (ci, mi[:3]), {"header": h.hex()}); break
-            acc_c = ci[1] >= 0
             if acc_c != spec_ok:
                 acc.fail("prop_fail", "header %s by LZ4F_getFrameInfo but %s by the specification (FLG=%02x BD=%02x, checksum %s)" % (
                     "accepted" if acc_c else "rejected", "accepted" if spec_ok else "rejected", flg, bd, "wrong" if wrong else "right"), {"header": h.hex()}); break
@@ -428,17 +423,21 @@ def k_flgbd(st, acc, rng, case):
                         csize if flg & 8 else 0, struct.unpack("<I", h[-5:-1])[0] if flg & 1 else 0, (flg >> 4) & 1)
                 if ci[2] != want:
                     acc.fail("prop_fail", "LZ4F_getFrameInfo reports %s, header says %s" % (ci[2], want), {"header": h.hex()}); break
-            # 3. LZ4F_decompress on header + end mark (+ checksum of the empty content)
             cd.reset(); md.reset()
             s = F.Session(st, cd, md)
             r = F.drive(s, rng, h + tail, rng.choice(["whole", "one", "hdr"]), "7")
-            if r["verdict"] in ("corr",):
-                acc.fail("corr_fail", "model/code disagree: " + str(r["what"]), {"header": h.hex()}); break
             ok_c = r["verdict"] == "complete"
             want_ok = spec_ok and not (flg & 8 and csize != 0)
             if ok_c != want_ok:
                 acc.fail("prop_fail", "empty frame with FLG=%02x BD=%02x (checksum %s): decoder says %s %s, specification says %s" % (
                     flg, bd, "wrong" if wrong else "right", r["verdict"], r.get("code"), "valid" if want_ok else "invalid"), {"data": (h + tail).hex()}); break
+            if r.get("corr"):
+                acc.fail("corr_fail", "model/code disagree: " + str(r["corr"]), {"header": h.hex()}); break
+            hs_m = int(orc.ask("hsize", "0", hx(h)))
+            if hs_c != hs_m:
+                acc.fail("corr_fail", "LZ4F_headerSize: code %d model %d" % (hs_c, hs_m), {"header": h.hex()}); break
+            if ci != mi[:3]:
+                acc.fail("corr_fail", "LZ4F_getFrameInfo: code %s model %s" % (ci, mi[:3]), {"header": h.hex()}); break
             acc.stats["hdr_" + ("accepted" if acc_c else "rejected_%s" % F.ERR.get(-ci[1], -ci[1]))] += 1
             if acc_c or wrong:
                 acc.keys.add("flgbd_%02x_%02x_%d" % (flg, bd, wrong))
